@@ -674,7 +674,7 @@ func (n *Node) NewInstance() error {
 
 func (n *Node) verifyPayload(p dbft.ConsensusPayload[H]) error {
 	ok := !n.RejectFrom[p.ValidatorIndex()]
-	if q := p.(*Payload); q.Forged && n.RejectForgedBelow > 0 && q.Hash()[0] < n.RejectForgedBelow {
+	if q := p.(*Payload); q.Forged && n.RejectForgedBelow > 0 && byte(q.UID*37) < n.RejectForgedBelow { // by payload id: the same on every node, reproducible
 		ok = false
 	}
 	n.C.emit(&Event{Node: n.ID, Kind: KVerifyPayload, P: p.(*Payload), OK: ok})
